@@ -187,6 +187,25 @@ def float_solver(chk: Check, n):
         except Exception as ex:  # noqa: BLE001
             chk.fail(f"solve_power(…, '{par}') raised on a valid request (constant covariate column)",
                      dict(parameter=par, error=repr(ex)))
+    # a RATIO metric with a ratio covariate whose two denominators have different means: in every row absolute and relative
+    # effect are related by the adjusted sample mean — which, for the sample itself, is the plain ratio of means
+    dr = A(4000, {"x": 6.0, "y": 3.0, "cx": 5.0, "cy": 0.5}, {"x": 4.0, "y": 1.0, "cx": 3.0, "cy": 0.04},
+           {("x", "y"): 0.6, ("cx", "x"): 1.5, ("cy", "x"): 0.05, ("cx", "y"): 0.3, ("cy", "y"): 0.02, ("cx", "cy"): 0.03})
+    for par, kw in (("power", dict(rel_effect_size=(0.05, 0.1), n_obs=(2000, 8000))), ("n_obs", dict(rel_effect_size=0.05)),
+                    ("effect_size", dict(n_obs=3000)), ("power", dict(effect_size=0.2))):
+        chk.case(("ratio-two-denominators", par, tuple(kw)))
+        chk.branch("float:ratio-two-denominators")
+        try:
+            rows_ = tt.RatioOfMeans("x", "y", "cx", "cy", **kw).solve_power(dr, par)
+        except Exception as ex:  # noqa: BLE001
+            chk.fail(f"solve_power(…, '{par}') raised on a valid request", dict(metric="RatioOfMeans(x, y, cx, cy)", error=repr(ex)))
+            continue
+        for r_ in rows_:
+            if abs(r_.effect_size - r_.rel_effect_size * 2.0) > 1e-9 * abs(r_.effect_size):
+                chk.fail("absolute and relative effect are not related by the (adjusted) mean",
+                         dict(metric="RatioOfMeans(x, y, cx, cy): mean(x)/mean(y) = 2, mean(cx)/mean(cy) = 10", parameter=par,
+                              row=[str(v) for v in r_]))
+                break
     # corpus: the two inputs that raised before fixes 6d61d9e / 8d7e1b0
     d = A(1000, {"x": 5.0}, {"x": 4.0}, {})
     for kw in (dict(ratio=2), dict(ratio=0.1, equal_var=True, use_t=True)):
